@@ -51,20 +51,25 @@ func vLimit(s *SwapData) int64 {
 }
 
 // H_C12_payFeeInvoice: the fee invoice is paid only if fee <= 3 x own estimate and the channel can
-// carry amount + fee, both as mathematical integers.  Bounds: amount <= 2^63 msat, estimate < 2^51 sat.
+// carry amount + fee, both as mathematical integers.  Bounds: amount <= 2^63 msat, estimate < 2^32 sat (quick) / 2^51 sat
+// (thorough).
 func H_C12_payFeeInvoice() {
 	vExactPremium = true
 	env := newEnv(true, true)
 	s := vTakerSwap(false, zzverif.Bool("liquid"), 7)
 	zzverif.Assume(s.SwapOutRequest.Amount <= vMaxAmountSat)
-	ev := (&PayFeeInvoiceAction{}).Execute(env.services, s)
 	w := env.w
+	w.maxFlatFee = uint64(1) << 32 // quick tier: float64 reasoning over 51 bits takes minutes
+	if zzverif.Thorough() {
+		w.maxFlatFee = uint64(1) << 51
+	}
+	ev := (&PayFeeInvoiceAction{}).Execute(env.services, s)
 	if len(w.feePays) > 0 {
 		zzverif.Reach("fee.paid")
 		inv := w.invoices[s.SwapOutAgreement.Payreq]
 		zzverif.Assert(len(w.feePays) == 1 && inv != nil && !inv.err, "C12.fee_single_payment")
 		est := w.lastFlatFee
-		zzverif.Assume(est < (uint64(1) << 51))
+
 		feeSat := inv.msat / 1000
 		zzverif.Assert(feeSat <= est*3, "C12.fee_at_most_3x_estimate")
 		// spendable >= amount*1000 + feeMsat without wrap
@@ -162,7 +167,7 @@ func H_C12_openingAmount() {
 // configured limit rate and the request carries the amount unchanged (SwapOut / SwapIn entry points are
 // covered by the C10/C11 service harnesses; this is the arithmetic kernel).
 func H_C12_responderPremium() {
-	vExactPremium = true
+	vUFPremium = true // "charges the configured rate" is an identity of Compute applications
 	env := newEnv(true, true)
 	swapIn := zzverif.Bool("swap_in")
 	liquid := zzverif.Bool("liquid")
